@@ -1,7 +1,9 @@
 package main
 
 import (
+	"context"
 	"encoding/json"
+	"errors"
 	"fmt"
 	"os"
 	"path/filepath"
@@ -146,7 +148,11 @@ func replayOnce(b Behaviour, cfg Cfg, seed int64, dir string, res *vh.Result, co
 		if x > 0 {
 			kind = indexKind(b.Indexes[x-1])
 		}
-		return []deviation{{Step: si, X: x, Kind: kind, Op: st.Op, Class: "error", Err: what + ": " + err.Error(), N: st.N}}
+		class := "error"
+		if strings.HasPrefix(what, "WaitForIndexingUpto") && errors.Is(err, context.DeadlineExceeded) {
+			class = "indexing-does-not-catch-up"
+		}
+		return []deviation{{Step: si, X: x, Kind: kind, Op: st.Op, Class: class, Err: what + ": " + err.Error(), N: st.N}}
 	}
 	for si, st := range b.Steps {
 		if count {
@@ -156,18 +162,18 @@ func replayOnce(b Behaviour, cfg Cfg, seed int64, dir string, res *vh.Result, co
 		switch st.Op {
 		case "commit":
 			if _, _, err := w.commit(st.Tx); err != nil {
-				return stepErr(si, st, "commit", err), ""
+				return append(devs, stepErr(si, st, "commit", err)...), ""
 			}
 		case "live":
 			if err := w.waitIndexed(st.N); err != nil {
-				return stepErr(si, st, "WaitForIndexingUpto after commit", err), ""
+				return append(devs, stepErr(si, st, "WaitForIndexingUpto after commit", err)...), ""
 			}
 		case "start":
 			if err := w.start(st.X); err != nil {
-				return stepErr(si, st, "InitIndexing", err), ""
+				return append(devs, stepErr(si, st, "InitIndexing", err)...), ""
 			}
 			if err := w.waitIndexed(st.N); err != nil {
-				return stepErr(si, st, "WaitForIndexingUpto after InitIndexing", err), ""
+				return append(devs, stepErr(si, st, "WaitForIndexingUpto after InitIndexing", err)...), ""
 			}
 			if count {
 				for _, k := range st.Bulks {
@@ -176,11 +182,11 @@ func replayOnce(b Behaviour, cfg Cfg, seed int64, dir string, res *vh.Result, co
 			}
 		case "stop":
 			if err := w.stop(st.X); err != nil {
-				return stepErr(si, st, "CloseIndexing", err), ""
+				return append(devs, stepErr(si, st, "CloseIndexing", err)...), ""
 			}
 		case "flush":
 			if err := w.st.FlushIndexes(float32((si*37)%101), si%2 == 0); err != nil {
-				return stepErr(si, st, "FlushIndexes", err), ""
+				return append(devs, stepErr(si, st, "FlushIndexes", err)...), ""
 			}
 		case "compact":
 			// a compaction that is refused or fails leaves the index as it is: the reads that follow are still checked
@@ -189,15 +195,15 @@ func replayOnce(b Behaviour, cfg Cfg, seed int64, dir string, res *vh.Result, co
 			}
 		case "reopen":
 			if err := w.reopen(); err != nil {
-				return stepErr(si, st, "Close+Open", err), ""
+				return append(devs, stepErr(si, st, "Close+Open", err)...), ""
 			}
 		case "read":
 			if err := w.waitIndexed(st.N); err != nil {
-				return stepErr(si, st, "WaitForIndexingUpto", err), ""
+				return append(devs, stepErr(si, st, "WaitForIndexingUpto", err)...), ""
 			}
 			snap, err := w.snapshot(st.X, st.N)
 			if err != nil {
-				return stepErr(si, st, "SnapshotMustIncludeTxID", err), ""
+				return append(devs, stepErr(si, st, "SnapshotMustIncludeTxID", err)...), ""
 			}
 			for qi, rd := range st.Reads {
 				exp := w.expected(rd.R)
@@ -265,6 +271,12 @@ func hasMultiBulk(b Behaviour, upto int) bool {
 func signature(d deviation, bulkOnly bool) string {
 	if bulkOnly {
 		return fmt.Sprintf("indexer.indexSince:MaxBulkSize>1:%s-index:reads-differ-from-committed-log", d.Kind)
+	}
+	if d.Class == "indexing-does-not-catch-up" {
+		return "indexer.indexSince:indexing-does-not-catch-up"
+	}
+	if (d.Op == "between" || d.Op == "scanb") && foreignVersion(d.Got.Items) {
+		return "tbtree.lastUpdateBetween:" + d.Op + ":version-of-another-key-below-first-version"
 	}
 	if d.Op == "history" && d.Query.Via == "snap" && d.Class == "wrong-revision" {
 		return "store.Snapshot.History:revision-numbers-ignore-order-and-offset"
@@ -351,6 +363,16 @@ func runRP(in string, seed int64, dir string, classes int, res *vh.Result) {
 	if len(bf.Behaviours) > 0 {
 		res.Sample(map[string]interface{}{"layout": bf.Layout, "maxBulk": bf.Behaviours[0].MaxBulk, "steps": stepsText(bf.Behaviours[0].Steps)}, 6)
 	}
+}
+
+// a version numbered 0 (or below): revisions start at 1, so this is not a version of the key at all
+func foreignVersion(its []PItem) bool {
+	for _, it := range its {
+		if it.Vs == nil && it.Hc <= 0 {
+			return true
+		}
+	}
+	return false
 }
 
 func stepsText(ss []AStep) string {
